@@ -499,6 +499,11 @@ class TableReport(ReportBase):
             elif column_id == "cost":
                 return self._get_cost_value(property_node, scenario_idx)
 
+            # A task that could not be scheduled has no dates to report (a run-away
+            # task still carries the start of its first booking).
+            if column_id in ("start", "end") and self._is_unscheduled_task(property_node, scenario_idx):
+                return None
+
             if self.is_scenario_specific(column_id):
                 return property_node.get(column_id, scenario_idx) if hasattr(property_node, "get") else None
             else:
@@ -506,6 +511,15 @@ class TableReport(ReportBase):
         except (ValueError, KeyError, AttributeError):
             # Unknown attribute - return placeholder
             return "-"
+
+    @staticmethod
+    def _is_unscheduled_task(property_node: Any, scenario_idx: int) -> bool:
+        """Check whether the node is a task that is not scheduled in the scenario."""
+        try:
+            return property_node.get("scheduled", scenario_idx) is False
+        except (ValueError, KeyError, AttributeError, IndexError, TypeError):
+            # Not a task (resources have no 'scheduled' attribute)
+            return False
 
     def _get_revenue_value(self, property_node: Any, scenario_idx: int) -> Any:
         """
